@@ -374,6 +374,17 @@ func main() {
 		os.Exit(selftest(os.Args[2:]))
 	case "rewrite-test":
 		os.Exit(rewriteTest())
+	case "strategy":
+		if len(os.Args) < 3 {
+			fail2("usage: verifsim strategy <ID> [cap-runs]")
+		}
+		capRuns := int64(200000)
+		if len(os.Args) > 3 {
+			if n, err := strconv.ParseInt(os.Args[3], 10, 64); err == nil {
+				capRuns = n
+			}
+		}
+		os.Exit(strategyCmd(os.Args[2], capRuns))
 	default:
 		fail2("unknown command %q", os.Args[1])
 	}
